@@ -117,6 +117,16 @@ def apply_call(world, c):
         return call(lambda: opt.clear_log())
     if k == "set_knob":
         return call(lambda: world.kcont[c[1]].__setitem__(world.names[c[1]], float(c[2])))
+    if k == "set_tol":
+        # staged matching: the tolerance of a target is changed on the live optimizer (coarse first, then fine)
+        j, v = c[1] % world.spec["nt"], float(c[2])
+        world.spec = dict(world.spec)
+        world.spec["tols"] = list(world.spec["tols"])
+        world.spec["tols"][j] = v
+
+        def set_tol():
+            world.opt.targets[j].tol = v
+        return call(set_tol)
     raise AssertionError(c)
 
 
@@ -313,6 +323,11 @@ class C09:
                 pre.insert(r2.randint(0, len(pre)), ("enable", "vary", j))
         if r2.random() < 0.2:
             pre.insert(r2.randint(0, len(pre)), (r2.choice(["disable", "enable"]), r2.choice(["vary", "target"]), 0))
+        if r2.random() < 0.3:
+            # an earlier solve with the tolerances as built, then one of them is tightened (or relaxed) for the solve under test
+            j = r2.randrange(spec["nt"])
+            pre.append(("solve", {}))
+            pre.append(("set_tol", j, spec["tols"][j] * r2.choice([1e-3, 1e-2, 1e-1, 10.0])))
         multi = []
         for _ in range(r2.randint(0, 3)):
             multi.append(([r2.randint(0, 25) for _ in range(r2.randint(1, 2))], [r2.randint(0, 25) for _ in range(r2.randint(0, 2))]))
@@ -355,7 +370,7 @@ class C09:
                 r = w.residuals()
                 j = ok.index(False)
                 raise OViolation(prop + ".returned_unmatched", "%s: solve() returned normally but target %d is %r away from its value (tol %r) "
-                                 "at the knobs left in the container %s" % (where, j, r[j], spec["tols"][j], w.knob_values()))
+                                 "at the knobs left in the container %s" % (where, j, r[j], w.spec["tols"][j], w.knob_values()))
             return "returned"
         if fault is not None and fault[0] == "raise" and w.fired:
             if exc is not w.last_fault_exc:
